@@ -239,6 +239,9 @@ def describe(case, upto=None) -> str:
             f"{[(iid, 'P%d' % pid, comps, best) for iid, pid, comps, best in hist]}")
 
 
+_KEEP_ALIVE: list = []
+
+
 def run_case(h: Harness, case, tmp: str, n: int):
     kind, k, only_best = case["kind"], case["k"], case["only_best"]
     fields, extras, minimize = case["fields"], case["extras"], case["minimize"]
@@ -269,8 +272,16 @@ def run_case(h: Harness, case, tmp: str, n: int):
         if prob:
             h.fail(site, "incomplete-row-on-disk", f"{describe(case, 0)}: {prob}", case)
         snaps.append(snap)
+        other = None
+        if n % 3 == 1:
+            # the individuals have a past: they carry a fitness for ANOTHER problem (which stays alive) as well
+            other = make_problem(k, minimize, True)
+            _KEEP_ALIVE.append(other)
+            del _KEEP_ALIVE[:-40]
         for j, (iid, pid, comps, best) in enumerate(case["history"]):
             ind = make_ind(iid, pid, comps)
+            if other is not None:
+                ind.set_fitness(other, Fitness(1234.0, [4321.0 + c for c in range(k)]))
             if kind == "recorder":
                 ind.set_fitness(problem, Fitness(float(aggregate(comps, minimize)), [float(c) for c in comps]))
                 recorder.register(tracker, ind, problem, is_best=best)
@@ -306,7 +317,9 @@ def run_case(h: Harness, case, tmp: str, n: int):
                 ["prop_file", mk, k, sx_fields(None if kind == "simplegp" else fields), sx_fields(extras), only_best,
                  sx_events(events[:j]), snaps[j]],
                 f"{describe(case, j)}: the file on disk parses to {snaps[j]}", case, nontrivial=nontrivial)
-    if kind != "recorder" and isinstance(problem, SingleObjectiveProblem):
+    # one objective: "best" can only mean a strict improvement -- also when the wrapper was given a one-element list
+    # of directions (a MultiObjectiveProblem with a single objective)
+    if (kind != "recorder" and isinstance(problem, SingleObjectiveProblem)) or (kind == "simplegp" and k == 1):
         aggs = [aggregate(c, minimize) for (_, _, c, _) in events]
         h.agree("SingleObjectiveProgressTracker.evaluate", ["track_flags", aggs], [f for (_, _, _, f) in events],
                 nontrivial=len(aggs) >= 2, replay=case)
